@@ -32,8 +32,11 @@ def reviewed : List (String × String) := [
   ("CollectionPath.AddTo", "a.Liked.GetLink()"), ("CollectionPath.AddTo", "a.Following.GetLink()"),
   ("CollectionPath.AddTo", "a.Followers.GetLink()"), ("CollectionPath.AddTo", "o.Likes.GetLink()"),
   ("CollectionPath.AddTo", "o.Shares.GetLink()"), ("CollectionPath.AddTo", "o.Replies.GetLink()"),
-  -- `c` is the CollectionInterface handed over by OnCollectionIntf, which returns early for nil-like items
-  ("Flatten", "c.Collection()"), ("NotEmpty", "c.Collection()"),
+  -- the callback parameter stands for the method's own value receiver, which cannot be nil
+  ("Activity.Equals", "oi.Equals(w)"), ("Actor.Equals", "oa.Equals(w)"), ("IntransitiveActivity.Equals", "oa.Equals(w)"),
+  -- only reached for a LinkOrIRI that is not an Item; every link type of the package is an Item and goes
+  -- through gobEncodeItem (IsNil-guarded) instead. (The nested-nil matrix plants a nil *Link in url.)
+  ("gobEncodeItemOrLink", "l.GobEncode()"),
   -- not an item helper of the property (path containment of IRIs)
   ("IRI.ItemsMatch", "it.GetLink()"),
   -- inside the `IsIRI(it)` branch: the receiver is an IRI value
